@@ -855,6 +855,14 @@ func (p *Parser) getVarDecl(pkg *packages.Package, obj *types.Var) ast.Expr {
 					}
 				}
 			}
+			// s := kessoku.Set(...) inside a function
+			if assign, ok := node.(*ast.AssignStmt); ok && assign.Tok == token.DEFINE && len(assign.Lhs) == len(assign.Rhs) {
+				for i, lhs := range assign.Lhs {
+					if ident, ok := lhs.(*ast.Ident); ok && pkg.TypesInfo != nil && pkg.TypesInfo.Defs[ident] == obj {
+						return assign.Rhs[i]
+					}
+				}
+			}
 		}
 	}
 
